@@ -75,6 +75,7 @@ type frame struct {
 	curBlock *ssa.BasicBlock
 	boxN     int
 	atCallSeen map[*Clause]bool
+	atStoreN int
 }
 
 func (fr *frame) name(v ssa.Value) string {
@@ -362,7 +363,12 @@ func findLoops(fn *ssa.Function) map[*ssa.BasicBlock]*loopInfo {
 	for h := range loops {
 		hs = append(hs, h)
 	}
-	sort.Slice(hs, func(i, j int) bool { return blockPos(hs[i]) < blockPos(hs[j]) })
+	sort.Slice(hs, func(i, j int) bool {
+		if blockPos(hs[i]) != blockPos(hs[j]) {
+			return blockPos(hs[i]) < blockPos(hs[j])
+		}
+		return hs[i].Index < hs[j].Index // outer loops (lower block index) first on a tie
+	})
 	for i, h := range hs {
 		loops[h].ordinal = i + 1
 	}
@@ -581,6 +587,7 @@ func (fr *frame) encodeInstr(in ssa.Instruction, st *State, g string) {
 	case *ssa.Store:
 		addr := fr.val(x.Addr)
 		fr.nilCheckAddr(x.Addr, addr, g, x.Pos())
+		fr.atStoreClauses(x, st, g)
 		vc.store(st, addr, x.Val.Type(), fr.val(x.Val))
 	case *ssa.FieldAddr:
 		base := fr.val(x.X)
@@ -1411,6 +1418,47 @@ func (fr *frame) next(x *ssa.Next, st *State, g string) {
 		}
 	}
 	vc.note("range over map/string: iteration order and coverage are not modelled (each step yields an arbitrary remaining element)")
+}
+
+// atStoreClauses: `at-store Type.field requires[label] e` - an assertion on the value v stored into that field, wherever
+// the function (not its inlined callees) stores to it
+func (fr *frame) atStoreClauses(x *ssa.Store, st *State, g string) {
+	root := fr.rootFr
+	if root == nil || root.contract == nil || fr != root {
+		return
+	}
+	fa, ok := x.Addr.(*ssa.FieldAddr)
+	if !ok {
+		return
+	}
+	stT := fa.X.Type().Underlying().(*types.Pointer).Elem()
+	su, ok := stT.Underlying().(*types.Struct)
+	if !ok {
+		return
+	}
+	name := types.TypeString(stT, func(*types.Package) string { return "" }) + "." + su.Field(fa.Field).Name()
+	for _, cl := range root.contract.Get("at-store") {
+		txt := strings.TrimSpace(cl.Text)
+		i := strings.Index(txt, " requires")
+		if i < 0 || strings.TrimSpace(txt[:i]) != name {
+			continue
+		}
+		lab, body := splitLabel(strings.TrimSpace(txt[i+len(" requires"):]))
+		e, err := ParseExpr(body)
+		if err != nil {
+			fr.vc.specErrors = append(fr.vc.specErrors, "at-store: "+err.Error())
+			continue
+		}
+		env := root.specEnvAt(st)
+		env.vars["v"] = sval{t: fr.val(x.Val), typ: x.Val.Type()}
+		env.vars["target"] = sval{t: fr.val(fa.X), typ: fa.X.Type()}
+		root.atStoreN++
+		if root.atCallSeen == nil {
+			root.atCallSeen = map[*Clause]bool{}
+		}
+		root.atCallSeen[cl] = true
+		fr.vc.oblige("at-store", fmt.Sprintf("%s#%d:%s", name, root.atStoreN, lab), g, env.trBool(e), "at a store into "+name+": "+body, root.props, posOf(fr.fn, x.Pos()))
+	}
 }
 
 // closurePre: the `requires` clauses of a closure under contract are checked where the closure is created, over the
